@@ -10,6 +10,16 @@ from aw_core import dirs
 logger = logging.getLogger(__name__)
 
 
+def _inlined(value):
+    """Converts (nested) tables to inline tables, the only kind of table an inline table can hold"""
+    if isinstance(value, dict) and not isinstance(value, tomlkit.items.InlineTable):
+        inline = tomlkit.inline_table()
+        for key in value:
+            inline[key] = _inlined(value[key])
+        return inline
+    return value
+
+
 def _merge(a: dict, b: dict, path=None):
     """
     Recursively merges b into a, with b taking precedence.
@@ -18,6 +28,9 @@ def _merge(a: dict, b: dict, path=None):
     """
     if path is None:
         path = []
+    if isinstance(a, tomlkit.items.InlineTable):
+        # tomlkit refuses to put a regular table inside an inline table
+        b = {key: _inlined(b[key]) for key in b}
     for key in b:
         if key in a:
             if isinstance(a[key], dict) and isinstance(b[key], dict):
